@@ -21,6 +21,10 @@ class Unsupported(Exception):
     pass
 
 
+class WrongVariant(Exception):
+    """a path guessed the wrong enum variant at a discriminant switch: infeasible, dropped"""
+
+
 def BV(e, w, s):
     return {"k": "bv", "e": e, "w": w, "s": s}
 
@@ -31,6 +35,28 @@ def BOOL(e):
 
 def ENUM(ty, variant, fields):
     return {"k": "enum", "ty": ty, "variant": variant, "fields": fields}
+
+
+_OPAQUE = [0]
+
+
+def OPAQUE(why=""):
+    _OPAQUE[0] += 1
+    return {"k": "opaque", "id": _OPAQUE[0], "why": why}
+
+
+def variant_const(ty, variant):
+    """SMT constant standing for the discriminant of a field-less variant (distinct per name)"""
+    return "|disc:%s::%s|" % (re.sub(r"\s+", "", ty), variant)
+
+
+def disc_of(v):
+    if v.get("k") == "enum":
+        if v.get("disc"):
+            return v["disc"]
+        if not v["fields"]:
+            return variant_const(v["ty"], v["variant"])
+    return None
 
 
 def lit(v, w):
@@ -58,6 +84,8 @@ def const_val(txt):
 
 def cast_int(v, ty):
     w, s = INT_TYPES[ty]
+    if v["k"] == "opaque":
+        return OPAQUE("cast of opaque")
     if v["k"] == "bool":
         return BV("(ite %s %s %s)" % (v["e"], lit(1, w), lit(0, w)), w, s)
     if v["k"] != "bv":
@@ -76,6 +104,8 @@ CMPS = {"Lt": ("bvslt", "bvult"), "Le": ("bvsle", "bvule"), "Gt": ("bvsgt", "bvu
 
 
 def binop(op, a, b):
+    if a["k"] == "opaque" or b["k"] == "opaque":
+        return OPAQUE("binop on opaque")
     if op in ("Eq", "Ne"):
         if a["k"] == "bool":
             e = "(= %s %s)" % (a["e"], b["e"])
@@ -107,26 +137,52 @@ def _u64_identity(args):
 
 
 SUMMARIES = [
-    (r"^<i64 as tantivy_columnar::MonotonicallyMappableToU64>::to_u64$", _i64_to_u64,
+    (r"^<i64 as (tantivy_columnar|column_values::monotonic_mapping)::MonotonicallyMappableToU64>::to_u64$", _i64_to_u64,
      "i64 -> u64 order-preserving map = (x as u64) ^ 2^63 (equality with the real function: K03-map-i64)"),
-    (r"^<u64 as tantivy_columnar::MonotonicallyMappableToU64>::to_u64$", _u64_identity,
+    (r"^<u64 as (tantivy_columnar|column_values::monotonic_mapping)::MonotonicallyMappableToU64>::to_u64$", _u64_identity,
      "u64 -> u64 map is the identity (K03-map-u64)"),
 ]
 
 
 class Exec:
-    def __init__(self, funcs, max_depth=3, max_paths=64):
+    def __init__(self, funcs, max_depth=3, max_paths=64, lenient=False, subject=None, target=None):
+        """lenient: unknown statements / calls yield opaque values and a switch on an opaque value
+        forks without a condition (over-approximation) instead of raising Unsupported.
+        subject: (callee regex, disc-constant name): that call returns an enum whose discriminant is
+        the named SMT constant. target: callee regex; a path stops there and is reported in `hits`."""
         self.funcs = funcs; self.max_depth = max_depth; self.max_paths = max_paths
         self.summaries_used = []
         self.bodies = []
+        self.lenient = lenient; self.subject = subject; self.target = target
+        self.hits = []      # (conds, callee) of paths that reached a target call
+        self.cut = 0        # paths abandoned (loop / too long)
+        self.consts = set() # variant constants used
 
     def operand(self, f, env, txt):
         txt = txt.strip()
         m = re.match(r"(?:copy|move) (.*)$", txt)
         if m:
             return self.place(f, env, m.group(1))
+        if txt.startswith("const ") and "promoted[" in txt:
+            # a promoted constant belongs to the body being executed
+            n = re.search(r"promoted\[(\d+)\]", txt).group(1)
+            body = self.funcs.get("const %s::promoted[%s]" % (f.name, n))
+            if body:
+                out = self.run(body[0], [])
+                if len(out) == 1:
+                    return out[0][1]
+            if self.lenient:
+                return OPAQUE("promoted const")
+            raise Unsupported("promoted constant %r" % txt)
         if txt.startswith("const "):
-            return const_val(txt[6:])
+            try:
+                return const_val(txt[6:])
+            except Unsupported:
+                if self.lenient:
+                    return OPAQUE("const")
+                raise
+        if self.lenient:
+            return OPAQUE("operand")
         raise Unsupported("operand %r" % txt)
 
     def place(self, f, env, p):
@@ -136,12 +192,31 @@ class Exec:
             p = m.group(1)      # references are kept as the value they point to
         if re.match(r"_\d+$", p):
             if p not in env:
+                if self.lenient:
+                    return OPAQUE("unset local")
                 raise Unsupported("use of unset local %s" % p)
             return env[p]
+        if self.lenient:
+            return OPAQUE("place")
         raise Unsupported("place %r" % p)
 
     def rvalue(self, f, env, rv, dest_ty):
         rv = rv.strip()
+        if rv.startswith("no_retag "):
+            rv = rv[len("no_retag "):]
+        m = re.match(r"discriminant\((.*)\)$", rv)
+        if m:
+            v = self.place(f, env, m.group(1))
+            if v.get("k") == "enum" and v.get("fields") and not v.get("disc"):
+                return {"k": "variant_disc", "enum": v}
+            d = disc_of(v)
+            if d is not None:
+                if d.startswith("|disc:"):
+                    self.consts.add(d)
+                return BV(d, 64, True)
+            if self.lenient:
+                return OPAQUE("discriminant")
+            raise Unsupported("discriminant of %r" % v.get("k"))
         m = re.match(r"(\w+)\((.*), (.*)\)$", rv)
         if m and (m.group(1) in BINOPS or m.group(1) in CMPS or m.group(1) in ("Eq", "Ne", "Shl", "Shr", "ShlUnchecked", "ShrUnchecked")):
             return binop(m.group(1), self.operand(f, env, m.group(2)), self.operand(f, env, m.group(3)))
@@ -152,6 +227,16 @@ class Exec:
         if m:
             v = self.operand(f, env, m.group(1))
             return BOOL("(not %s)" % v["e"]) if v["k"] == "bool" else BV("(bvnot %s)" % v["e"], v["w"], v["s"])
+        m = re.match(r"(?:copy |move )?\(\((_\d+) as (\w+)\)\.(\d+): .*\)$", rv)
+        if m:
+            base = self.place(f, env, m.group(1))
+            if base.get("k") == "enum" and base.get("variant") is not None:
+                if base["variant"] != m.group(2):
+                    raise WrongVariant()
+                return base["fields"][int(m.group(3))]
+            if self.lenient:
+                return OPAQUE("projection")
+            raise Unsupported("projection %r" % rv)
         m = re.match(r"&(?:mut )?(.*)$", rv)
         if m:
             return self.place(f, env, m.group(1))
@@ -166,6 +251,8 @@ class Exec:
                 _, args = split_call("x(" + m.group(3) + ")")
                 fields = [self.operand(f, env, a) for a in args]
             return ENUM(m.group(1), m.group(2), fields)
+        if self.lenient:
+            return OPAQUE("rvalue")
         raise Unsupported("rvalue %r" % rv)
 
     def run(self, f, args, depth=0):
@@ -180,19 +267,37 @@ class Exec:
         while stack:
             bname, env, conds, steps = stack.pop()
             if steps > 200:
+                if self.lenient:
+                    self.cut += 1
+                    continue
                 raise Unsupported("loop or too long a path in %s" % f.name)
             if len(results) + len(stack) > self.max_paths:
                 raise Unsupported("too many paths in %s" % f.name)
             blk = f.blocks[bname]
             env = dict(env)
+            dead = False
             for s in blk.stmts:
                 if s.startswith(("StorageLive", "StorageDead", "nop", "FakeRead", "PlaceMention", "Retag", "AscribeUserType", "Coverage")):
                     continue
                 m = re.match(r"(_\d+) = (.*);$", s)
                 if not m:
+                    if self.lenient:
+                        continue    # projections / derefs being assigned: not tracked
                     raise Unsupported("statement %r" % s)
-                env[m.group(1)] = self.rvalue(f, env, m.group(2), f.types.get(m.group(1)))
+                try:
+                    env[m.group(1)] = self.rvalue(f, env, m.group(2), f.types.get(m.group(1)))
+                except WrongVariant:
+                    dead = True
+                    break
+                except Unsupported:
+                    if not self.lenient:
+                        raise
+                    env[m.group(1)] = OPAQUE("rvalue")
+            if dead:
+                continue
             k = blk.kind
+            if k == "unreachable":
+                continue
             if k == "return":
                 if "_0" not in env:
                     raise Unsupported("return without _0")
@@ -202,6 +307,10 @@ class Exec:
             elif k == "switch":
                 op, targets = blk.switch
                 v = self.operand(f, env, op)
+                if v["k"] in ("opaque", "variant_disc"):
+                    for key, tgt in targets:
+                        stack.append((tgt, env, conds, steps + 1))
+                    continue
                 explicit = []
                 for key, tgt in targets:
                     if key == "otherwise":
@@ -217,8 +326,22 @@ class Exec:
                         stack.append((tgt, env, conds + ["(not %s)" % c for c in explicit], steps + 1))
             elif k == "call":
                 callee = blk.call["callee"]
+                if self.target and re.search(self.target, callee):
+                    self.hits.append((conds, callee))
+                    continue
                 vals = [self.operand(f, env, a) for a in blk.call["args"]]
                 out = None
+                if self.subject and re.search(self.subject[0], callee):
+                    out = [([], {"k": "enum", "ty": "subject", "variant": None, "fields": [], "disc": self.subject[1]})]
+                m_eq = re.match(r"<(.*) as std::cmp::PartialEq>::(eq|ne)$", callee)
+                if out is None and m_eq and len(vals) == 2:
+                    d0, d1 = disc_of(vals[0]), disc_of(vals[1])
+                    if d0 is not None and d1 is not None:
+                        for d_ in (d0, d1):
+                            if d_.startswith("|disc:"):
+                                self.consts.add(d_)
+                        e = "(= %s %s)" % (d0, d1)
+                        out = [([], BOOL(e if m_eq.group(2) == "eq" else "(not %s)" % e))]
                 for rx, fn, why in SUMMARIES:
                     if re.search(rx, callee):
                         out = [([], fn(vals))]
@@ -226,10 +349,15 @@ class Exec:
                         break
                 if out is None:
                     cands = self.funcs.get(callee)
-                    if not cands or depth >= self.max_depth:
+                    if self.lenient:
+                        out = [([], OPAQUE("call " + callee[:60]))]
+                    elif not cands or depth >= self.max_depth:
                         raise Unsupported("call to %s (no body in the dump, no summary)" % callee)
-                    out = self.run(cands[0], vals, depth + 1)
+                    else:
+                        out = self.run(cands[0], vals, depth + 1)
                 if not blk.call["ret"]:
+                    if self.lenient:
+                        continue
                     raise Unsupported("diverging call %s" % callee)
                 for c2, v2 in out:
                     e2 = dict(env)
@@ -241,8 +369,15 @@ class Exec:
                 if not m or not blk.succs:
                     raise Unsupported("assert terminator %r" % blk.term[:60])
                 v = self.operand(f, env, m.group(2))
+                if v["k"] == "opaque":
+                    stack.append((blk.succs[0], env, conds, steps + 1))
+                    continue
                 c = ("(not %s)" % v["e"]) if m.group(1) else v["e"]
                 stack.append((blk.succs[0], env, conds + [c], steps + 1))
+            elif k == "drop" and blk.succs:
+                stack.append((blk.succs[0], env, conds, steps + 1))
+            elif self.lenient and k in ("unreachable", "resume", "other"):
+                continue
             else:
                 raise Unsupported("terminator kind %s in %s" % (k, f.name))
         return results
